@@ -17,6 +17,10 @@ import (
 type seedPlan struct {
 	Name  string `json:"seed"`
 	Depth int    `json:"depth"`
+	// Alpha, when set, replaces the plan's alphabet for this seed (the seeds added for the concentrated
+	// positions and UnbondConvertAndStake; the four original runs keep the original alphabet, so their counts
+	// are what they were)
+	Alpha *Alphabet `json:"alphabet,omitempty"`
 }
 
 type plan struct {
@@ -27,15 +31,23 @@ type plan struct {
 func planFor(tier string) plan {
 	if tier == "thorough" {
 		return plan{Alpha: Alphabet{MaxLocks: 4, FullUndel: true, Probes: true},
-			Seeds: []seedPlan{{"mixed", 4}, {"undelegating", 4}, {"init", 5}, {"delegated", 5}}}
+			Seeds: []seedPlan{{"mixed", 4, nil}, {"undelegating", 4, nil}, {"init", 5, nil}, {"delegated", 5, nil},
+				{"cl-delegated", 4, &Alphabet{MaxLocks: 3, FullUndel: true, Probes: true, NoShareLocks: true, CL: true, CLPartial: true}},
+				{"mixed-cl", 3, &Alphabet{MaxLocks: 6, FullUndel: true, Probes: true, CL: true, CLPartial: true, UCS: true, UCSBothVals: true, Unpool: 2}},
+				{"converted", 5, &Alphabet{MaxLocks: 4, NoShareLocks: true, UCS: true, UCSBothVals: true, Unpool: 2}}}}
 	}
 	return plan{Alpha: Alphabet{MaxLocks: 3, FullUndel: false, Probes: false},
-		Seeds: []seedPlan{{"init", 4}, {"delegated", 3}, {"undelegating", 3}, {"mixed", 3}}}
+		Seeds: []seedPlan{{"init", 4, nil}, {"delegated", 3, nil}, {"undelegating", 3, nil}, {"mixed", 3, nil},
+			{"cl-delegated", 3, &Alphabet{MaxLocks: 3, NoShareLocks: true, CL: true}},
+			{"mixed-cl", 3, &Alphabet{MaxLocks: 5, NoShareLocks: true, CL: true, UCS: true, Unpool: 1}}}}
 }
 
 // seedOps drives the world from genesis to a named mid-life state through the same Apply path as the
 // explorer, so seeds are real reachable states. Every seed ends at cfg.StartHeight (119): the first
 // explored block boundary ends block 119 (no lockup sweep), the second ends block 120 (sweep).
+// init / delegated / undelegating / mixed are the original runs (original alphabet, unchanged counts);
+// cl-delegated / mixed-cl / converted were added for the other ways x/superfluid creates, changes and ends
+// delegations: concentrated full-range positions, UnbondConvertAndStake, UnPoolWhitelistedPool.
 func seedOps(name string, cfg Config) []Op {
 	h := cfg.StartHeight
 	switch name {
@@ -50,6 +62,19 @@ func seedOps(name string, cfg Config) []Op {
 	case "mixed":
 		// (S3) two owners on one intermediary account, a split-off lock undelegating and unlocking
 		return []Op{{K: "lockdel", A: "A", V: 0}, {K: "lockdel", A: "B", V: 0}, {K: "undelunbond", P: 0, X: 1, Y: 3}, {K: "ff", X: h - 1}, {K: "swap", X: 0}, {K: "epoch"}}
+	case "cl-delegated":
+		// (S4) concentrated shares only: A's full-range position delegated to val0, B's to val1, a price move on the
+		// concentrated pool, one epoch
+		return []Op{{K: "clcreate", A: "A", V: 0}, {K: "clcreate", A: "B", V: 1}, {K: "clswap", X: 0}, {K: "ff", X: h - 1}, {K: "epoch"}}
+	case "mixed-cl":
+		// (S5) both denominations on val0: A's balancer lock delegated with a split-off part undelegating and
+		// unlocking, B's balancer lock plain, B's concentrated position delegated; price moves on both pools, one epoch
+		return []Op{{K: "lockdel", A: "A", V: 0}, {K: "lock", A: "B"}, {K: "undelunbond", P: 0, X: 1, Y: 3}, {K: "clcreate", A: "B", V: 0},
+			{K: "ff", X: h - 1}, {K: "swap", X: 0}, {K: "clswap", X: 1}, {K: "epoch"}}
+	case "converted":
+		// (S6) a conversion has already happened: B's delegated lock was converted to native stake with val0 while A's
+		// lock stays delegated through the same intermediary account; A also holds an undelegating lock
+		return []Op{{K: "lockdel", A: "A", V: 0}, {K: "lockdel", A: "B", V: 0}, {K: "ff", X: h - 1}, {K: "swap", X: 1}, {K: "epoch"}, {K: "ucs", P: 1, V: 0}}
 	}
 	panic("unknown seed " + name)
 }
@@ -83,6 +108,7 @@ type replayCfg struct {
 
 func runReplay(f *core.Flags, r *core.Result) {
 	var rp replayCfg
+	rp.Config = DefaultConfig() // artefacts written before the concentrated pool existed carry no settings for it
 	core.ReadReplay(f.Replay, &rp)
 	w := NewWorld(rp.Config)
 	w.Vac, w.Extra = r.Vacuity, r.Extra
@@ -103,15 +129,25 @@ func runReplay(f *core.Flags, r *core.Result) {
 		ctx, out = w.Apply(ctx, l, op, fail)
 		fmt.Printf("step %d %s -> %s\n   %s\n", i, op, out, describe(l))
 		for v := range w.Env.Vals {
-			d, _ := w.delegated(ctx, v)
-			n, sum := l.connected(v)
+			d, _ := w.delegated(ctx, 0, v)
+			n, sum := l.connected(0, v)
 			fmt.Printf("   val%d: staked %s, %d connected locks sum %s, value %s\n", v, d, n, sum, w.Value(l.Mult, sum))
+			if l.Acct[1][v] {
+				d, _ := w.delegated(ctx, 1, v)
+				n, sum := l.connected(1, v)
+				fmt.Printf("   val%d concentrated: staked %s, %d connected locks sum %s, value %s (multiplier %s; for the over-counted liquidity %s: value %s)\n", v, d, n, sum, w.Value(l.MultCL, sum), l.MultCL, l.MultCLImpl, w.Value(l.MultCLImpl, sum))
+			}
 		}
 		fmt.Printf("   supply with offset %s\n", w.App.BankKeeper.GetSupplyWithOffset(ctx, w.BondDenom).Amount)
 		w.Check(ctx, l, fail)
 		r.Transitions++
 		r.States++
 	}
+}
+
+func addExtra(r *core.Result, key string, n int64) {
+	v, _ := r.Extra[key].(float64)
+	r.Extra[key] = v + float64(n)
 }
 
 func main() {
@@ -130,12 +166,14 @@ func main() {
 	w := NewWorld(cfg)
 	w.Vac, w.Extra = r.Vacuity, r.Extra
 	defer w.Env.Close()
-	sc := &core.Scenario[Op, *Ledger]{
-		App: w.App, Stores: nil, Config: cfg,
-		Enabled:   w.Enabled(&pl.Alpha),
-		Apply:     w.Apply,
-		Check:     w.Check,
-		LedgerKey: func(l *Ledger) []byte { return l.digest() },
+	scenarioFor := func(al *Alphabet) *core.Scenario[Op, *Ledger] {
+		return &core.Scenario[Op, *Ledger]{
+			App: w.App, Stores: nil, Config: cfg,
+			Enabled:   w.Enabled(al),
+			Apply:     w.Apply,
+			Check:     w.Check,
+			LedgerKey: func(l *Ledger) []byte { return l.digest() },
+		}
 	}
 	allSeen := core.NewSeen()
 	runs := map[string]interface{}{}
@@ -163,16 +201,25 @@ func main() {
 					Replay: replayCfg{Config: cfg, Seed: sp.Name}})
 				continue
 			}
-			ex := core.NewExplorer(sc, f, r)
-			before := r.Transitions
+			al := &pl.Alpha
+			if sp.Alpha != nil {
+				al = sp.Alpha
+			}
+			ex := core.NewExplorer(scenarioFor(al), f, r)
+			before, beforeS, beforeT := r.Transitions, r.States, r.Traces
 			ex.Run(sp.Name, ctx, l, sp.Depth)
+			// per-seed totals over both passes (bin/run adds the shards up)
+			addExtra(r, "sum_transitions_"+sp.Name, r.Transitions-before)
+			addExtra(r, "sum_states_"+sp.Name, r.States-beforeS)
+			addExtra(r, "sum_traces_"+sp.Name, r.Traces-beforeT)
 			if pass == 0 {
 				continue
 			}
 			if minDepth == 0 || sp.Depth < minDepth {
 				minDepth = sp.Depth
 			}
-			runs[fmt.Sprintf("%s/depth%d", sp.Name, sp.Depth)] = map[string]interface{}{"seed_ops": fmt.Sprint(seedOps(sp.Name, cfg)), "seed_state": describe(l), "transitions_this_shard": r.Transitions - before, "completed_this_shard": r.Exhaustive}
+			abz, _ := json.Marshal(al)
+			runs[fmt.Sprintf("%s/depth%d", sp.Name, sp.Depth)] = map[string]interface{}{"seed_ops": fmt.Sprint(seedOps(sp.Name, cfg)), "seed_state": describe(l), "alphabet": string(abz), "transitions_this_shard": r.Transitions - before, "completed_this_shard": r.Exhaustive}
 			for k := range ex.Seen {
 				var h [32]byte
 				copy(h[:], k[:])
